@@ -311,7 +311,59 @@ def _typed(sig, v):
     return type('T_' + str(abs(hash(sig))), (base,), {'dbusSignature': sig})(v)
 
 
+def own_get_case():
+    """an object whose own interface has methods called Get, Set and GetAll - implemented under the conventional dbus_ names and
+    decorated for that interface - still answers org.freedesktop.DBus.Properties.Get / Set / GetAll with its properties"""
+    from txdbus import interface, objects, message
+    own = interface.DBusInterface('org.verif.Store', interface.Method('Get', arguments='s', returns='s'), interface.Method('Set', arguments='ss'),
+                                  interface.Method('GetAll', returns='as'), interface.Property('Size', 'u', writeable=True), noRegister=True)
+
+    class Store(objects.DBusObject):
+        dbusInterfaces = [own]
+        Size = objects.DBusProperty('Size')
+
+        @objects.dbusMethod('org.verif.Store', 'Get')
+        def dbus_Get(self, key):
+            return 'value of ' + key
+
+        @objects.dbusMethod('org.verif.Store', 'Set')
+        def dbus_Set(self, key, value):
+            return None
+
+        @objects.dbusMethod('org.verif.Store', 'GetAll')
+        def dbus_GetAll(self):
+            return ['k']
+    conn = Conn()
+    handler = objects.DBusObjectHandler(conn)
+    o = Store('/org/verif/Props')
+    o.Size = 3
+    handler.exportObject(o)
+    p, out = call(handler, conn, 'Get', 'ss', ['org.verif.Store', 'Size'])
+    kind, r, f = reply_of(p, out, 'Properties.Get on an object with a method Get of its own')
+    if f or kind != 'ok' or r.body != [3]:
+        return 'Properties.Get(org.verif.Store, Size) on an object whose own interface has a method Get: %s %r' % (kind, f or getattr(r, 'body', r))
+    p, out = call(handler, conn, 'Set', 'ssv', ['org.verif.Store', 'Size', _typed('u', 9)])
+    kind, r, f = reply_of(p, out, 'Properties.Set on an object with a method Set of its own')
+    if f or kind != 'ok' or o.Size != 9:
+        return 'Properties.Set(org.verif.Store, Size, 9) on an object whose own interface has a method Set: %s, the value is %r' % (kind, o.Size)
+    p, out = call(handler, conn, 'GetAll', 's', ['org.verif.Store'])
+    kind, r, f = reply_of(p, out, 'Properties.GetAll on an object with a method GetAll of its own')
+    if f or kind != 'ok' or r.body != [{'Size': 9}]:
+        return 'Properties.GetAll(org.verif.Store) on an object whose own interface has a method GetAll: %s %r' % (kind, f or getattr(r, 'body', r))
+    m = message.MethodCallMessage('/org/verif/Props', 'Get', interface='org.verif.Store', signature='s', body=['k'])
+    pm = message.parseMessage(m.rawMessage, [])
+    pm.sender = ':1.8'
+    del conn.sent[:]
+    handler.handleMethodCallMessage(pm)
+    if len(conn.sent) != 1 or getattr(conn.sent[0], 'body', None) != ['value of k']:
+        return 'org.verif.Store.Get(k) answered %r' % [(type(x).__name__, getattr(x, 'error_name', None), x.body) for x in conn.sent]
+    return None
+
+
 def bounded(tier, seed):
+    f = own_get_case()
+    if f:
+        return 1, f, {'case': 'own methods named Get / Set / GetAll'}
     rnd = random.Random(seed * 811 + 29)
     n = 0
     for s in range(12000 if tier == 'thorough' else 50):
